@@ -38,6 +38,7 @@ CONSTANTS StreamIds = {1, 2}
 INVARIANT Prefix
 PROPERTY ForgottenStaysGone
 PROPERTY NoExpiredAfterHousekeeping
+PROPERTY NoItemPastDeadline
 CHECK_DEADLOCK FALSE
 """
 
@@ -366,7 +367,11 @@ def run_overlap(variants, settings):
 
                 def overlapped():
                     p1._pyroClaimOwnership()
-                    box["ev"] = fetch(it, 1, 1)
+                    t0 = now()
+                    ev = fetch(it, 1, 1)
+                    if ev["out"] == "item":
+                        ev["now"] = t0        # the daemon took the request up when it arrived; the item was merely slow in coming
+                    box["ev"] = ev
                 sc.spawn(sc.fresh_name("fetcher"), overlapped)
                 sc.quiesce()                      # the fetch is in flight now, parked inside the generator
                 if how == "close_other_conn":
